@@ -991,25 +991,66 @@ func ruleReadyCount(c *Ctx) {
 		c.undecided("server.readyCallback.loading", "anchor", "-", "not found")
 		return
 	}
-	seen := map[*ssa.Function]bool{}
+	descends := func(f *ssa.Function) bool {
+		for _, call := range callsIn(f) {
+			if _, ok := isCallTo(call, onLoaded); ok {
+				return true
+			}
+		}
+		return false
+	}
+	// the functions that lower the count, and — where the decrement lives in a helper — their callers
+	roots := map[*ssa.Function]bool{}
 	n := 0
+	var lift func(f *ssa.Function, depth int)
+	lift = func(f *ssa.Function, depth int) {
+		f = TopLevel(f)
+		if descends(f) {
+			roots[f] = true
+			return
+		}
+		if depth >= 2 {
+			return
+		}
+		if nd := p.CG.Nodes[f]; nd != nil {
+			for _, e := range nd.In {
+				if e.Caller.Func != nil && e.Site != nil && p.isRepoFn(e.Caller.Func) && e.Site.Common().StaticCallee() == f && TopLevel(e.Caller.Func) != f {
+					lift(e.Caller.Func, depth+1)
+				}
+			}
+		}
+	}
 	for _, st := range p.stores[fLoading] {
 		b, ok := st.Val.(*ssa.BinOp)
 		if !ok || b.Op != token.SUB {
 			continue
 		}
-		fn := st.Parent()
-		if seen[fn] {
-			continue
-		}
-		seen[fn] = true
 		n++
+		lift(st.Parent(), 0)
+	}
+	if n == 0 {
+		c.viol("server.readyCallback.loading", "the ready count is given back only after the descent", "-", "no decrement found")
+		return
+	}
+	var names []string
+	for f := range roots {
+		names = append(names, fnName(f))
+	}
+	if len(names) == 0 {
 		c.inst(1)
-		sp := &Spec{NoHelpers: true}
-		sp.Classify = func(t *Tracer, fr *Frame, in ssa.Instruction) []Ev {
-			if fr != t.RootFr {
-				return nil
+		c.ok("server.readyCallback.loading", "the ready count is given back only after the descent into the references", "-", "no function that lowers the count descends into references")
+		return
+	}
+	for _, nm := range sortedStrings(names) {
+		var fn *ssa.Function
+		for f := range roots {
+			if fnName(f) == nm {
+				fn = f
 			}
+		}
+		c.inst(1)
+		sp := &Spec{InlineHelpers: true}
+		sp.Classify = func(t *Tracer, fr *Frame, in ssa.Instruction) []Ev {
 			if s2, ok := isStoreToT(t, fr, in, fLoading); ok {
 				if b2, isB := s2.Val.(*ssa.BinOp); isB && b2.Op == token.SUB {
 					return []Ev{{Kind: "dec"}}
@@ -1036,9 +1077,6 @@ func ruleReadyCount(c *Ctx) {
 		if tr.Trunc {
 			bad = "path budget exhausted"
 		}
-		c.check(bad == "", fnName(fn), "the ready count is given back only after the descent into the references", p.InstrPos(st), fmt.Sprintf("%d paths", len(tr.Paths)), bad)
-	}
-	if n == 0 {
-		c.viol("server.readyCallback.loading", "the ready count is given back only after the descent", "-", "no decrement found")
+		c.check(bad == "", fnName(fn), "the ready count is given back only after the descent into the references", p.Pos(fn.Pos()), fmt.Sprintf("%d paths", len(tr.Paths)), bad)
 	}
 }
